@@ -5,6 +5,7 @@
 #![allow(unused_imports)]
 use std::io::{BufRead, Write};
 mod consts;
+mod mp;
 mod prog;
 mod settable;
 mod streams;
@@ -40,6 +41,7 @@ fn run_case(case: &[i64]) -> Vec<i64> {
         3 => streams::run_comb_case(&case[1..]),
         4 => streams::run_strm_case(&case[1..]),
         5 => settable::run_sett_case(&case[1..]),
+        6 => mp::run_mp_case(&case[1..]),
         _ => vec![W_BAD],
     }));
     match r {
